@@ -230,6 +230,7 @@ pub fn initial_states_d(t: Tier, with_big: bool) -> Vec<(Init, usize)> {
         let used = plain_len(&near);
         near.an.push(Rec { owner: a.clone(), rtype: 99, class: 1, ttl: 0, rdata: Rdata::Opaque(vec![0x42; 65535 - used - 13 - 20]) });
         v.push((Init::Packet(encode(&near, Strategy::Plain)), 1));
+        v.push((Init::Packet(encode(&near, Strategy::Max)), 1));
         // 8192 exactly and 8180
         for total in [8192usize, 8180] {
             let mut m = r(vec![a_rec(&ba, 60, [1, 2, 3, 4])], vec![], vec![]);
